@@ -274,6 +274,7 @@ class Check:
             unexplained = [f for f in self.failures if not f["explained_by"]]
         code = 0
         if unexplained:
+            unexplained = sorted(unexplained, key=lambda f: len(json.dumps(f["input"], default=str)))  # smallest first (stable)
             f = unexplained[0]
             path = self.write_replay("failing-input", {"input": f["input"], "detail": f["detail"], "others": [u["input"] for u in unexplained[1:20]], "broken": broken})
             print(f"VIOLATION property={self.pid} replay={path}")
